@@ -156,6 +156,16 @@ def g_bit_count(rng, tier):
         yield (x & 0xFFFF, 1, 16)
 
 
+def g_low16(rng, tier):
+    for x in range(0, 64):
+        yield (x, 32)
+    for k in range(16):
+        yield (1 << k, 32)
+        yield ((0xFFFF << k) & 0xFFFF, 32)
+    for _ in range(60 if tier == 'quick' else 3000):
+        yield (rng.getrandbits(16), 32)
+
+
 def g_align(rng, tier):
     for x in (0, 1, 3, 4, 5, 7, 8, 0xFFFFFFFF, 0x1003):
         for y in (1, 2, 4, 8):
@@ -253,6 +263,8 @@ ROWS = [
     ('chain', 'bits_ops', g_chain, 'exp_chain', None, 'pure', ['C17_chain']),
     ('bit_not', 'bits_ops', g_bit_not, 'exp_bit_not', None, 'pure', ['C17_bit_not']),
     ('bit_count', 'bits_ops', g_bit_count, 'exp_bit_count', None, 'pure', ['C17_bit_count']),
+    ('is_ones', 'bits_ops', g_x_N, 'exp_is_ones', None, 'pure', ['C17_is_ones']),
+    ('lowest_set_bit_ref', 'bits_ops', g_low16, 'exp_lowest_set_bit', None, 'pure', ['C17_lowest_set_bit']),
     ('align', 'bits_ops', g_align, 'exp_align', None, 'pure', ['C17_align']),
     ('big_endian_reverse', 'bits_ops', g_ber, 'exp_big_endian_reverse', None, 'res', ['C17_big_endian_reverse']),
     ('lsl_c', 'shift', g_shiftc, 'exp_lsl_c', None, 'res', ['C17_lsl_c', 'C17_lsl_c_rejects']),
@@ -319,7 +331,8 @@ def helper_units():
                 out.append({'impl': {'kind': 'call', 'mod': mod, 'fn': fn, 'args': iargs, 'rt': rt},
                             'model': model, 'spec': spec, 'label': fn, 'nontrivial': True})
             return out
-        units.append(Unit(fn, thms, PROOF_FILES[mod], [f'{mod}.{fn}'], cases, IMPORTS, SPEC_IMPORTS))
+        extra = {'is_ones': ['Proofs/IsOnes.v'], 'lowest_set_bit_ref': ['Proofs/LowestSweep2.v', 'Proofs/LowestSweep.v']}.get(fn, [])
+        units.append(Unit(fn, thms, PROOF_FILES[mod] + extra, [f'{mod}.{fn}'], cases, IMPORTS, SPEC_IMPORTS))
     return units
 
 
@@ -375,4 +388,4 @@ def units():
     return helper_units() + field_units()
 
 
-PROPS_FILES = ['C17', 'C17_fields']
+PROPS_FILES = ['C17', 'C17_fields', 'C17more']
